@@ -28,6 +28,18 @@ func c04Gen(rng *rand.Rand, m *model.Model, keys []string) []string {
 		}
 		return pick(rng, []string{"v", "", "hello", "1.5", "-0.25", "3e3", "x\x00y"})
 	}
+	if rng.Intn(40) == 0 {
+		// wide commands: 65-200 fields in one command
+		w := 65 + rng.Intn(136)
+		a := []string{pick(rng, []string{"HSET", "HDEL", "HMGET", "HMSET"}), k}
+		for i := 0; i < w; i++ {
+			a = append(a, "wf"+strconv.Itoa(i))
+			if a[0] == "HSET" || a[0] == "HMSET" {
+				a = append(a, strconv.Itoa(i))
+			}
+		}
+		return a
+	}
 	n := modelLen(m, 0, k)
 	switch rng.Intn(30) {
 	case 0, 1, 2, 3:
